@@ -29,13 +29,14 @@ PARTIAL = ['interim level: generator-with-oracle exploration. The compositional 
            'laws over the parser model) is the planned upgrade']
 
 
-def opts():
-    return gen_tree.Opts()
+def opts(seed=0):
+    # every third case writes some inline constructs directly next to each other ("wow!`x`[a](b)")
+    return gen_tree.Opts(glue=(seed % 3 == 2))
 
 
 def gen(seed, nblocks=None):
     rng = random.Random(seed)
-    return gen_tree.generate(rng, opts(), nblocks)
+    return gen_tree.generate(rng, opts(seed), nblocks)
 
 
 def adjacent_lists(bs):
